@@ -15,10 +15,10 @@ RUN_REQUIRES = {
     "not-capturing-at-entry": "is_none(runner.capture_controller.old_stdout) and is_none(runner.capture_controller.old_stderr)",
     "context-attributes-are-model-elements":
         "(G_ctx_scenario is ABSENT or typeof_is(G_ctx_scenario, 'Scenario')) and "
-        "(is_none(G_ctx_feature) or typeof_is(G_ctx_feature, 'Feature'))",
+        "(is_none(G_ctx_feature) or typeof_is(G_ctx_feature, 'Feature')) and (G_ctx_rule is ABSENT or typeof_is(G_ctx_rule, 'Rule'))",
 }
 RUN_MODIFIES = ["G_bad", "G_nhooks", "G_hook_name", "G_hook_arg", "G_ncalls", "G_calls", "G_nev", "G_ev_kind",
-                "G_ev_arg", "G_ctx_aborted", "G_ctx_scenario", "G_ctx_feature", "G_ctx_depth", "G_ctx_saved_scenario",
+                "G_ev_arg", "G_ctx_aborted", "G_ctx_scenario", "G_ctx_feature", "G_ctx_depth", "G_ctx_saved_scenario", "G_ctx_rule", "G_ctx_saved_rule",
                 "G_npops", "G_ncleanup_runs", "G_log_installed", "G_ctx_writes",
                 "*.status", "*.hook_failed", "*.duration", "*.exception", "*.exc_traceback", "*.error_message",
                 "*.captured", "*.should_skip", "*.skip_reason", "*._cached_status", "*._background_steps",
@@ -32,7 +32,7 @@ UNDEF0 = "old(len(runner._undefined_steps))"
 HF0 = "old(runner.hook_failures)"
 # what every run() of a run item guarantees to its container (each override is proved against it)
 RUN_ENSURES = {
-    "scope-balanced": "G_ctx_depth == old(G_ctx_depth) and G_ctx_scenario == old(G_ctx_scenario)",
+    "scope-balanced": "G_ctx_depth == old(G_ctx_depth) and G_ctx_scenario == old(G_ctx_scenario) and G_ctx_rule == old(G_ctx_rule)",
     "context-feature-stays-a-feature": "is_none(G_ctx_feature) or typeof_is(G_ctx_feature, 'Feature')",
     "no-false-red": "implies(result, G_bad > old(G_bad))",
     "no-false-green": "implies(G_bad > old(G_bad), result or len(runner._undefined_steps) > %s "
@@ -46,7 +46,7 @@ RUN_ENSURES = {
     "hook-flags-set-only-with-a-bad-event":
         "forall(lambda r: implies(field_of(r, 'hook_failed', 'Step') and not old(field_of(r, 'hook_failed', 'Step')), G_bad > old(G_bad)))",
     "outer-saved-scopes-kept":
-        "forall(lambda k: implies(k < old(G_ctx_depth), G_ctx_saved_scenario(k) == old(G_ctx_saved_scenario(k))))",
+        "forall(lambda k: implies(k < old(G_ctx_depth), G_ctx_saved_scenario(k) == old(G_ctx_saved_scenario(k)) and G_ctx_saved_rule(k) == old(G_ctx_saved_rule(k))))",
     "hook-failures-grow-only-with-a-bad-event": "implies(runner.hook_failures > old(runner.hook_failures), G_bad > old(G_bad))",
     "undefined-steps-found-are-bad-events": "implies(len(runner._undefined_steps) > old(len(runner._undefined_steps)), G_bad > old(G_bad))",
     "abort-only-with-a-bad-event": "implies(G_ctx_aborted and not old(G_ctx_aborted), G_bad > old(G_bad))",
@@ -64,7 +64,7 @@ CAPI = ("cinv(runner.capture_controller, sys) and is_none(runner.capture_control
         "and is_none(runner.capture_controller.old_stderr) and not is_none(runner.context) "
         "and sys.stdout is old(sys.stdout) and sys.stderr is old(sys.stderr) and G_log_installed == old(G_log_installed)")
 CTXI = ("(G_ctx_scenario is ABSENT or typeof_is(G_ctx_scenario, 'Scenario')) and "
-        "(is_none(G_ctx_feature) or typeof_is(G_ctx_feature, 'Feature'))")
+        "(is_none(G_ctx_feature) or typeof_is(G_ctx_feature, 'Feature')) and (G_ctx_rule is ABSENT or typeof_is(G_ctx_rule, 'Rule'))")
 ACC = {
     "capture": CAPI, "context": CTXI,
     "hook-flags": "forall(lambda r: implies(field_of(r, 'hook_failed', 'Step') and not old(field_of(r, 'hook_failed', 'Step')), G_bad > old(G_bad)))",
@@ -81,16 +81,13 @@ ACC = {
         "implies(G_ctx_aborted and not old(G_ctx_aborted), G_bad > old(G_bad))",
 }
 
-contract("abs:ScenarioOutline.scenarios", trusted=True, params={"self": "ref:ScenarioOutline"},
-         result="seq:ref:Scenario", modifies=["*._scenarios", "*.index", "*.id", "*.modified"],
-         ensures={"value": "result is rows_of(self)"},
-         doc="the row scenarios of an outline (builder: C06)")
+# abs:ScenarioOutline.scenarios: see contracts/c10_location.py
 contract(M + "ScenarioOutline.run", props=P, params={"self": "ref:ScenarioOutline", "runner": "ref:ModelRunner"},
          self_classes=["ScenarioOutline"], globals=SYS, result="bool",
          requires=RUN_REQUIRES, modifies=RUN_MODIFIES,
          loops=[Loop(modifies=RUN_MODIFIES, invariant=dict(ACC, **{
-             "scope": "G_ctx_depth == old(G_ctx_depth) and G_ctx_scenario == old(G_ctx_scenario) and "
-                      "forall(lambda k: implies(k < old(G_ctx_depth), G_ctx_saved_scenario(k) == old(G_ctx_saved_scenario(k))))",
+             "scope": "G_ctx_depth == old(G_ctx_depth) and G_ctx_scenario == old(G_ctx_scenario) and G_ctx_rule == old(G_ctx_rule) and "
+                      "forall(lambda k: implies(k < old(G_ctx_depth), G_ctx_saved_scenario(k) == old(G_ctx_saved_scenario(k)) and G_ctx_saved_rule(k) == old(G_ctx_saved_rule(k))))",
              "hook-flags": "forall(lambda r: implies(field_of(r, 'hook_failed', 'Step') and not old(field_of(r, 'hook_failed', 'Step')), G_bad > old(G_bad)))"}))],
          ensures=RUN_ENSURES)
 
@@ -132,8 +129,8 @@ contract(M + "ScenarioContainer.run", props=P, params={"self": "ref:ScenarioCont
              Loop(broadcast=("abs:fmt.background", "background")),               # 2
              Loop(modifies=CONT_LOOPMOD, invariant=dict(ACC, **{                  # 3: run items
                  "scope": "G_ctx_depth == old(G_ctx_depth) + 1 and G_ctx_scenario is ABSENT "
-                          "and G_ctx_saved_scenario(old(G_ctx_depth)) is ABSENT "
-                          "and forall(lambda k: implies(k < old(G_ctx_depth), G_ctx_saved_scenario(k) == old(G_ctx_saved_scenario(k))))",
+                          "and G_ctx_saved_scenario(old(G_ctx_depth)) is ABSENT and G_ctx_saved_rule(old(G_ctx_depth)) == old(G_ctx_rule) "
+                          "and forall(lambda k: implies(k < old(G_ctx_depth), G_ctx_saved_scenario(k) == old(G_ctx_saved_scenario(k)) and G_ctx_saved_rule(k) == old(G_ctx_saved_rule(k))))",
                  "own-flag-only-with-bad-event": "implies(self.hook_failed, G_bad > old(G_bad))",
              })),
              Loop(modifies=HOOKMOD, invariant={                                   # 4: after_tag hooks
@@ -180,7 +177,7 @@ contract(R + "ModelRunner.run_model", props=["C01", "C12", "C14"],
          self_classes=["ModelRunner"], globals=SYS, result="bool",
          requires={
              "runner-has-context": "not is_none(self.context)",
-             "not-aborted-at-start": "G_ctx_aborted == False and G_ctx_scenario is ABSENT and is_none(G_ctx_feature)",
+             "not-aborted-at-start": "G_ctx_aborted == False and G_ctx_scenario is ABSENT and G_ctx_rule is ABSENT and is_none(G_ctx_feature)",
              "capture-controller-invariant": "cinv(self.capture_controller, sys)",
              "not-capturing-at-entry": "is_none(self.capture_controller.old_stdout) and is_none(self.capture_controller.old_stderr)",
          },
